@@ -590,3 +590,7 @@ func init() {
 func init() {
 	ctl("an empty projection becomes no row", "S-KEEPKIND", "filterColumns|returns nil", "server", "", "filterColumns", kStmt, "return &new", 0, to("if len(new) == 0 {\nreturn nil\n}\nreturn &new"))
 }
+
+func init() {
+	ctl("monitor handler trusts the length of the parameter list", "P-IDX-RPC", "(*server.OvsdbServer).Monitor|request parameter args[2]", "server", "OvsdbServer", "Monitor", kExpr, "len(args) < 3", 0, to("len(args) < 2"))
+}
